@@ -58,6 +58,7 @@ struct FromFloat {
         std::string cause = from_corpus ? std::string("corpus-regression/") + kind + "/"
                           : strict      ? std::string("strict/") + kind + "/"
                                         : std::string("fragile/") + kind + "/" + bucket + "/";
+        if (!strict && !from_corpus) o.region = cause;
         if (!ok) {
             o.fclass = cause + o.fclass;
             return;
